@@ -39,6 +39,9 @@ ADJ = {
     'adj-uid-ext': {'f.0a': F(2, uid=1), 'g.a': F(7, uid=10)},
     'adj-ext-uid': {'h.a1': F(2, uid=0), 'i.a': F(7, uid=10)},
 }
+# ... and with every character a careless join might put between two key values
+for _i, _sep in enumerate(' ,|;:\t-_=\x1f'):
+    ADJ['adj-sep-%d' % _i] = {'draft': D({'letter.old%scopy' % _sep: F(3)}), 'draft%sold' % _sep: D({'x.copy': F(5)}), 'other': D({'y.copy': F(7)})}
 TREES.update(ADJ)
 # key values that look like numbers are still text (ext), and sort keys that are not selected
 TREES['numext'] = {'a.9': F(3), 'b.10': F(5), 'c.1a': F(7), 'd.a': F(1), 'e.010': F(9), 'f.9': F(11), 'g.10': F(2), 'h': F(4), 'i.-1': F(6), 'j.1e1': F(8)}
